@@ -28,18 +28,31 @@ def make_args(**kw):
 
 
 class _Result:
+    """What pathos' amap/apipe return: an AsyncResult (ready / wait / successful / get)."""
+
     def __init__(self, values):
         self._v = values
 
     def ready(self):
         return True
 
-    def get(self):
+    def wait(self, timeout=None):
+        return None
+
+    def successful(self):
+        return True
+
+    def get(self, timeout=None):
         return self._v
 
 
 class SyncPool:
-    """In-process stand-in for pathos' ProcessingPool: same protocol mixed_rank_graph uses (context manager + amap)."""
+    """In-process stand-in for pathos' ProcessingPool with the pool's whole calling protocol (map / imap / uimap / amap / pipe / apipe,
+    several iterables per call, chunksize keyword, context manager, close / join / terminate / clear / restart), so that a change of
+    *which* pool call the product uses is not mistaken for a change of behaviour.  Results are positional for map / imap / amap; uimap
+    yields in evaluation order (any order is legitimate there).  Sub-classes observe the submitted tasks through observe()."""
+
+    ncpus = nodes = 1
 
     def __init__(self, order=None):
         self.calls = 0
@@ -51,21 +64,54 @@ class SyncPool:
     def __exit__(self, *a):
         return False
 
-    def amap(self, fn, items):
+    def observe(self, items):
+        pass
+
+    def _run(self, fn, iterables):
         self.calls += 1
-        items = list(items)
+        items = list(zip(*[list(it) for it in iterables]))
+        self.observe([it[0] if len(it) == 1 else it for it in items])
         idx = list(range(len(items)))
         if self.order is not None:
             idx = self.order(idx)
         out = [None] * len(items)
         for i in idx:
-            out[i] = fn(items[i])
-        return _Result(out)
+            out[i] = fn(*items[i])
+        return out, idx
+
+    def map(self, fn, *iterables, **kw):
+        return self._run(fn, iterables)[0]
+
+    def imap(self, fn, *iterables, **kw):
+        return iter(self._run(fn, iterables)[0])
+
+    def uimap(self, fn, *iterables, **kw):
+        out, idx = self._run(fn, iterables)
+        return iter([out[i] for i in idx])
+
+    def amap(self, fn, *iterables, **kw):
+        return _Result(self._run(fn, iterables)[0])
+
+    def pipe(self, fn, *a, **kw):
+        self.calls += 1
+        return fn(*a, **kw)
+
+    def apipe(self, fn, *a, **kw):
+        return _Result(fn(*a, **kw))
 
     def close(self):
         pass
 
     def join(self):
+        pass
+
+    def terminate(self):
+        pass
+
+    def clear(self):
+        pass
+
+    def restart(self, force=False):
         pass
 
 
